@@ -118,7 +118,7 @@ PROPS_EXTRA = {
     'C01': ['Props.GenHeads', 'Props.GenJoin', 'Props.GenTraverse', 'Props.GenJoinTail', 'Props.GenCapstoneJoin'],
     'C02': ['Props.C13Facts', 'Props.GenHeads', 'Props.GenJoinTail', 'Props.GenCapstoneJoin'],
     'C03': ['Props.C19Gen', 'Props.GenTraverse', 'Props.GenCapstoneValues'],
-    'C04': ['Props.C04Conc', 'Props.GenMisc', 'Props.GenAppend', 'Props.GenCapstoneAppend'],
+    'C04': ['Props.C04Conc', 'Props.GenMisc', 'Props.GenAppend', 'Props.GenCapstoneAppend', 'Props.GenNewLog'],
     'C05': ['Props.GenTraverse', 'Props.GenJoinTail', 'Props.GenCapstoneValues'],
     'C06': ['Props.EffectFacts', 'Props.CodecFacts', 'Props.GenHeads', 'Props.GenJoin', 'Props.GenJoinTail'],
     'C07': ['Props.CodecFacts'],
